@@ -117,6 +117,27 @@ def r2_hold_until_done(ctx):
                 elif b.can_reach(bb, w.bb):
                     R.bad("C11.R2", "%s:dropped-before-%s:%s" % (fkey(b), w.name().split("::")[-1], kind), "the ConnectionState is released (%s) before %s starts" % (kind, w.name().split("::")[-1]), loc)
     R.floor("C11.R2", n, 3, "futures that own a ConnectionState and await the request's work")
+    # the work runs inside the future that owns the slot: it is never detached onto another task
+    for b in F.real_bodies():
+        if b.crate != SERVER or is_test_body(b):
+            continue
+        for w in b.calls_to(WORK):
+            holders = follow_value(b, w.dest["l"])
+            sp = [c for c in b.calls_to(r"^tokio::spawn$|^tokio::task::spawn$|spawn_blocking$|^tokio::task::spawn_local$") if any(arg_is_local(b, c.args[0], h) for h in holders)]
+            R.check(not sp, "C11.R2", "%s:%s-not-detached" % (fkey(b), w.name().split("::")[-1]), "%s is awaited by the future that owns the connection slot" % w.name().split("::")[-1], "%s is spawned onto a detached task in %s: when the request future is dropped (client abort) the slot is released while the handler keeps running" % (w.name().split("::")[-1], short(b.path)), where(w))
+    # nobody but the ConnectionState holds the connection permit: no clone of the permit (or of the whole state) is made
+    # in the server crate (a clone captured by a call task keeps the slot after the connection ended)
+    clones = []
+    for b in F.real_bodies():
+        if b.crate != SERVER or is_test_body(b):
+            continue
+        derived = b.path.endswith("::clone") and (b.impl_trait or "").endswith("Clone")
+        for c in b.calls:
+            if (c.callee or "").endswith("Clone::clone") and not c.exp:
+                st_ = c.self_ty or ""
+                if ("OwnedSemaphorePermit" in st_ or st_ == "jsonrpsee_server::server::ConnectionState") and not derived:
+                    clones.append(c)
+    R.check(not clones, "C11.R2", "permit-not-cloned", "the connection permit / ConnectionState is never cloned inside the server", "the connection permit (or the ConnectionState that owns it) is cloned in %s: whoever holds the clone keeps the connection slot after the connection finished" % [fkey(c.body) for c in clones], where(clones[0]) if clones else None)
     # background_task receives the state inside its params and nothing moves it elsewhere
     bt = F.one(r"^jsonrpsee_server::transport::ws::background_task::\{closure#0\}$")
     moved = [c for c in bt.calls if c.name() != "std::mem::drop" and any(op_place(a) is not None and not op_place(a).get("p") and bt.locals[op_place(a)["l"]]["ty"] == "jsonrpsee_server::server::ConnectionState" and "mv" in a for a in c.args)]
